@@ -1,4 +1,7 @@
+#[cfg(not(kani))]
 use fnv::FnvHashSet;
+#[cfg(kani)]
+use crate::verif_kani::shim::FnvHashSet;
 
 use crate::model::Value;
 
